@@ -881,6 +881,8 @@ impl DirectAddrUpdateState {
                 // reacts to the signal with `try_run`, which must be able to take the lock,
                 // otherwise a pending update would stay pending until the next trigger.
                 drop(net_reporter);
+                #[cfg(feature = "verif-hooks")]
+                crate::verif_hooks::pause("netreport.between_unlock_and_done");
                 run_done.send(()).await.ok();
                 #[cfg(feature = "verif-hooks")]
                 crate::verif_hooks::event("netreport.done_signalled", &[]);
